@@ -205,11 +205,71 @@ theorem upper_add_lower (T : Transc) (E : Parts) (x s g q : Rat) (hg : gamma T s
     unfold lowerGamma; rw [hg, hp]
 
 /-- `Gamma = exp(GammaLn)` is positive as soon as `exp` is -/
-theorem gamma_pos (T : Transc) (hexp : ∀ y, 0 < T.exp y) (x g : Rat) (h : gamma T x = .ok g) : 0 < g := by
-  unfold gamma gammaLn at h
-  split_ifs at h
-  · cases h
-  · cases h; exact hexp _
+theorem gamma_pos (T : Transc) (htg : ∀ y, 0 < y → 0 < T.tgamma y) (x g : Rat) (h : gamma T x = .ok g) : 0 < g := by
+  unfold gamma at h
+  split_ifs at h with hx
+  cases h; exact htg _ (not_le.mp hx)
+
+/-- `Gamma` rejects exactly `x ≤ 0` (its own guard after `fix:` a972610), as the pre-fix form did through `GammaLn` -/
+theorem gamma_guard (T : Transc) (x : Rat) :
+    (gamma T x = .error .diag ↔ x ≤ 0) ∧ (gammaViaLn T x = .error .diag ↔ x ≤ 0) := by
+  unfold gamma gammaViaLn gammaLn
+  by_cases h : x ≤ 0 <;> simp [h, Except.map]
+
+/-- the two forms of `Gamma` agree as soon as `tgamma = exp ∘ lnΓ` on the value `GammaLn` returns
+    (over the reals they are the same function; in double `exp` magnifies the error of the logarithm) -/
+theorem gamma_forms_agree (T : Transc) (x : Rat) (h : ∀ v, gammaLn T x = .ok v → T.tgamma x = T.exp v) :
+    gamma T x = gammaViaLn T x := by
+  unfold gamma gammaViaLn
+  by_cases hx : x ≤ 0
+  · rw [if_pos hx]; unfold gammaLn; rw [if_pos hx]; rfl
+  · rw [if_neg hx]
+    have hv : gammaLn T x = .ok (gammaLnGlue T x (lanczosSum x)) := by unfold gammaLn; rw [if_neg hx]
+    rw [hv, h _ hv]; rfl
+
+/-- **gammaQ_range** (after `fix:` 317093f): whatever the three evaluators return, `0 ≤ Q ≤ 1` and `0 ≤ P ≤ 1` -/
+theorem clamp01_range (q : Rat) : 0 ≤ clamp01 q ∧ clamp01 q ≤ 1 := by
+  unfold clamp01 rmin rmax
+  split_ifs <;> constructor <;> linarith
+
+/-- the clamp changes nothing where the evaluator is already a probability (value-neutral over exact arithmetic) -/
+theorem clamp01_noop (q : Rat) (h0 : 0 ≤ q) (h1 : q ≤ 1) : clamp01 q = q := by
+  unfold clamp01 rmin rmax
+  split_ifs <;> linarith
+
+theorem gammaQ_range (E : Parts) (x a q : Rat) (h : gammaQ E x a = .ok q) : 0 ≤ q ∧ q ≤ 1 := by
+  unfold gammaQ at h
+  cases hb : gammaQBranch x a with
+  | error e => rw [hb] at h; simp [gammaQRaw, hb, Except.map] at h
+  | ok br =>
+    rw [hb] at h
+    cases br with
+    | zero => cases h; exact ⟨zero_le_one, le_refl _⟩
+    | quad | series | cf =>
+      simp only at h
+      cases hr : gammaQRaw E x a with
+      | error e => rw [hr] at h; cases h
+      | ok r => rw [hr] at h; cases h; exact clamp01_range r
+
+theorem gammaP_range (E : Parts) (x a p : Rat) (h : gammaP E x a = .ok p) : 0 ≤ p ∧ p ≤ 1 := by
+  unfold gammaP at h
+  cases hq : gammaQ E x a with
+  | error e => rw [hq] at h; cases h
+  | ok q =>
+    rw [hq] at h
+    cases h
+    have := gammaQ_range E x a q hq
+    constructor <;> linarith [this.1, this.2]
+
+/-- `GammaQ` is the raw branch value whenever that value is a probability -/
+theorem gammaQ_eq_raw (E : Parts) (x a r : Rat) (h : gammaQRaw E x a = .ok r) (h0 : 0 ≤ r) (h1 : r ≤ 1) : gammaQ E x a = .ok r := by
+  unfold gammaQ
+  cases hb : gammaQBranch x a with
+  | error e => simp [gammaQRaw, hb] at h
+  | ok br =>
+    cases br with
+    | zero => simp [gammaQRaw, hb] at h; rw [← h]
+    | quad | series | cf => simp only; rw [h]; simp [Except.map, clamp01_noop r h0 h1]
 
 theorem gammaLn_guard (T : Transc) (x : Rat) : (∃ v, gammaLn T x = .ok v) ↔ 0 < x := by
   unfold gammaLn
